@@ -390,6 +390,42 @@ func compare(exp []frameExp, got []value.CallFrame) (string, string) {
 			own = append(own, f)
 		}
 	}
+	matches := func(e frameExp, a value.CallFrame) bool {
+		return a.LineNumber == e.Line && (e.Name == "" || nameMatches(a.FuncName, e.Name))
+	}
+	// frames of the chain listed in the wrong order? (every printed frame is an expected one, but not in chain order)
+	{
+		used := make([]bool, len(exp))
+		idx := make([]int, 0, len(own))
+		all := true
+		for _, a := range own {
+			found := -1
+			for j, e := range exp {
+				if !used[j] && matches(e, a) {
+					found = j
+					break
+				}
+			}
+			if found < 0 {
+				all = false
+				break
+			}
+			used[found] = true
+			idx = append(idx, found)
+		}
+		if all {
+			for i := 1; i < len(idx); i++ {
+				if idx[i] < idx[i-1] {
+					s := i - 1 // start of the misplaced block of consecutive frames
+					for s > 0 && idx[s-1] == idx[s]-1 {
+						s--
+					}
+					return fmt.Sprintf("frames out of order: the frames from the %s frame inwards are listed before their callers", kindName(exp[idx[s]].Kind)),
+						fmt.Sprintf("every printed frame is a frame of the chain, but expected frames %d..%d are printed before expected frame %d", idx[s], idx[i-1], idx[i])
+				}
+			}
+		}
+	}
 	for i := 0; i < len(exp) || i < len(own); i++ {
 		if i >= len(own) {
 			if i == 0 {
@@ -403,7 +439,7 @@ func compare(exp []frameExp, got []value.CallFrame) (string, string) {
 		}
 		e, a := exp[i], own[i]
 		if e.Name != "" && !nameMatches(a.FuncName, e.Name) {
-			return fmt.Sprintf("wrong frame: expected the %s frame, found another function (caller %s)", kindName(e.Kind), kindName(exp[max(i-1, 0)].Kind)),
+			return fmt.Sprintf("wrong frame: expected the %s frame, found another function", kindName(e.Kind)),
 				fmt.Sprintf("frame %d: expected function %s, found `%s`", i, e.Name, a.FuncName)
 		}
 		if a.LineNumber != e.Line {
@@ -411,7 +447,7 @@ func compare(exp []frameExp, got []value.CallFrame) (string, string) {
 			if i == len(exp)-1 {
 				role = "throw"
 			}
-			return fmt.Sprintf("wrong line: %s frame, %s", kindName(e.Kind), role), fmt.Sprintf("frame %d (`%s`): line %d, expected %d", i, a.FuncName, a.LineNumber, e.Line)
+			return "wrong line: " + role, fmt.Sprintf("frame %d (`%s`, a %s frame): line %d, expected %d", i, a.FuncName, kindName(e.Kind), a.LineNumber, e.Line)
 		}
 		if a.TailCallCounter != 0 {
 			return fmt.Sprintf("tail-call elision reported for a non-tail call: %s frame", kindName(e.Kind)), fmt.Sprintf("frame %d reports %d optimised tail calls", i, a.TailCallCounter)
@@ -583,12 +619,22 @@ func checkProgram(r *engine.R, ch string, fv []int, alt bool, wrapOff int) {
 			fmt.Sprintf("chain %s fillers %v alt %v: the throw at the leaf did not surface; stdout %q\n%s", ch, fv, alt, res.out, src), input)
 		return
 	}
+	// outcome classes: verdict × the kinds of boundaries the chain crosses
+	crossed := ""
+	for _, k := range "CNGA" {
+		if strings.ContainsRune(ch, k) {
+			crossed += string(k)
+		}
+	}
+	if crossed == "" {
+		crossed = "methods-only"
+	}
 	sig, why := compare(exp, res.frames)
 	if sig == "" {
-		r.Outcome("trace-ok")
+		r.Outcome("trace-ok/" + crossed)
 		return
 	}
-	r.Outcome("trace-wrong")
+	r.Outcome("trace-wrong/" + crossed)
 	r.Violation(sig, fmt.Sprintf("chain %s fillers %v alt %v: %s\nexpected frames of %s (outermost first):\n%sprinted trace:\n%s\nprogram:\n%s", ch, fv, alt, why, fileName, expString(exp), res.traceStr, numbered(src)), input)
 }
 
